@@ -135,6 +135,7 @@ func check(c Case) *vk.Violation {
 			q := new(cmpp20.PduConnect)
 			if err == nil {
 				err = q.IDecode(img)
+				reuse(img) // the receive buffer is used for the next read before the authenticator is verified
 			}
 			if err != nil {
 				viol = vk.Violf("cmpp20.PduConnect/codec-error", c, "connect does not survive encode+decode: %v", err)
@@ -150,6 +151,7 @@ func check(c Case) *vk.Violation {
 			rq := new(cmpp20.PduConnectResp)
 			if err == nil {
 				err = rq.IDecode(img)
+				reuse(img) // the receive buffer is used for the next read before the authenticator is verified
 			}
 			if err != nil {
 				viol = vk.Violf("cmpp20.PduConnectResp/codec-error", c, "connect response does not survive encode+decode: %v", err)
@@ -162,6 +164,7 @@ func check(c Case) *vk.Violation {
 			q := new(cmpp30.Connect)
 			if err == nil {
 				err = q.IDecode(img)
+				reuse(img) // the receive buffer is used for the next read before the authenticator is verified
 			}
 			if err != nil {
 				viol = vk.Violf("cmpp30.Connect/codec-error", c, "connect does not survive encode+decode: %v", err)
@@ -173,6 +176,7 @@ func check(c Case) *vk.Violation {
 			rq := new(cmpp30.ConnectResp)
 			if err == nil {
 				err = rq.IDecode(img)
+				reuse(img) // the receive buffer is used for the next read before the authenticator is verified
 			}
 			if err != nil {
 				viol = vk.Violf("cmpp30.ConnectResp/codec-error", c, "connect response does not survive encode+decode: %v", err)
@@ -185,6 +189,7 @@ func check(c Case) *vk.Violation {
 			q := new(smgp30.Login)
 			if err == nil {
 				err = q.IDecode(img)
+				reuse(img) // the receive buffer is used for the next read before the authenticator is verified
 			}
 			if err != nil {
 				viol = vk.Violf("smgp30.Login/codec-error", c, "login does not survive encode+decode: %v", err)
@@ -196,6 +201,7 @@ func check(c Case) *vk.Violation {
 			rq := new(smgp30.LoginResp)
 			if err == nil {
 				err = rq.IDecode(img)
+				reuse(img) // the receive buffer is used for the next read before the authenticator is verified
 			}
 			if err != nil {
 				viol = vk.Violf("smgp30.LoginResp/codec-error", c, "login response does not survive encode+decode: %v", err)
@@ -218,6 +224,13 @@ func check(c Case) *vk.Violation {
 		return vk.Violf(c.Exchange+"/panic", c, "panic\n%s", pn)
 	}
 	return viol
+}
+
+// reuse overwrites a receive buffer the way the next read of a connection does.
+func reuse(b []byte) {
+	for i := range b {
+		b[i] = 0xEE ^ byte(i)
+	}
 }
 
 type CtorCase struct {
